@@ -1,21 +1,22 @@
 #!/bin/bash
+V=${VERIF_SRC:-/verif}   # where the harness sources are read from (a snapshot copy keeps a long matrix run stable)
 # usage: seedmatrix.sh <seed-id> <tier> <prop> [prop...]
 # Runs checks against a seeded change WITHOUT touching /repo: the patch is applied to a scratch worktree, the
 # harness is rebuilt against it (alternate -modfile with the replace pointing there) and run with
 # VERIF_REPO/VERIF_ROOT redirected. Prints one line per (seed, property).
 id=$1; tier=$2; shift 2
-. /verif/env.sh
+. $V/env.sh
 sc=/tmp/sc/$id; rm -rf $sc $sc-root; mkdir -p /tmp/sc $sc-root
 git -C /repo worktree add -q --detach $sc HEAD || exit 2
 cleanup() { git -C /repo worktree remove --force $sc 2>/dev/null; rm -rf $sc $sc-root; }
 trap cleanup EXIT
-git -C $sc apply /verif/seeded/$id/patch.diff 2>/dev/null || git -C $sc apply -3 /verif/seeded/$id/patch.diff 2>/dev/null || { echo "$id: patch does not apply"; exit 2; }
-for f in known known_findings.json monitors; do ln -s /verif/$f $sc-root/$f; done
+git -C $sc apply $V/seeded/$id/patch.diff 2>/dev/null || git -C $sc apply -3 $V/seeded/$id/patch.diff 2>/dev/null || { echo "$id: patch does not apply"; exit 2; }
+for f in known known_findings.json monitors; do ln -s $V/$f $sc-root/$f; done
 mkdir -p $sc-root/evidence $sc-root/replay
-sed "s|=> /repo|=> $sc|" /verif/go.mod > $sc-root/go.mod; cp /verif/go.sum $sc-root/go.sum
-(cd /verif && go build -modfile=$sc-root/go.mod -o $sc-root/vcheck ./cmd/vcheck) || { echo "$id: harness does not build against the patched tree"; exit 2; }
+sed "s|=> /repo|=> $sc|" $V/go.mod > $sc-root/go.mod; cp $V/go.sum $sc-root/go.sum
+(cd $V && go build -modfile=$sc-root/go.mod -o $sc-root/vcheck ./cmd/vcheck) || { echo "$id: harness does not build against the patched tree"; exit 2; }
 for p in "$@"; do
-  out=$(cd /verif && VERIF_REPO=$sc VERIF_ROOT=$sc-root $sc-root/vcheck $p $tier 2>&1); rc=$?
+  out=$(cd $V && VERIF_REPO=$sc VERIF_ROOT=$sc-root $sc-root/vcheck $p $tier 2>&1); rc=$?
   n=$(echo "$out" | grep -c '^VIOLATION')
   echo "$id $p $tier rc=$rc violations=$n :: $(echo "$out" | grep '^VIOLATION' | head -1 | sed 's/replay=[^ ]* //' | cut -c1-260)"
 done
